@@ -12,7 +12,7 @@ import os
 
 from vlib import core, e2e
 
-MODS = ['S4V.Props.TimeSpec']
+MODS = ['S4V.Props.TimeSpec', 'S4V.Props.RegexSpec', 'S4V.Props.RegexCapture', 'S4V.Props.PatSelSpec']
 LEVEL_NOTE = ("Proved (S4V.Props.TimeSpec over the hand model of captures_to_buffer_bytes + datetime_parse_from_str and the tables regenerated from "
               "datetime.rs): every DTPD! row has range start 0; every DTFSS set's strftime pattern is the item sequence its enum fields stand for; every "
               "zone value is +-HH:MM within 14 h, scans to that offset, case variants agree; every accepted month name maps to its month; "
@@ -21,10 +21,20 @@ LEVEL_NOTE = ("Proved (S4V.Props.TimeSpec over the hand model of captures_to_buf
               "10-12 digits truncated, named/ambiguous zones). False statements proved false: epoch timestamps are shifted by --tz-offset "
               "(C04_epoch_full_false). Repaired and now proved: every written form of every month abbreviation, `May.` included, has an arm "
               "(C04_month_abbrev_complete, C04_may_dot; counter-model of the old 102-name table: C04_may_dot_before_repair). Calendar: civil_roundtrip both ways for all Int, strict monotonicity "
-              "(S4V.Lemmas.Time). NOT theorems: what the 173 regexes capture, which pattern wins block-zero analysis, chrono = parseBuf: these are the "
-              "correspondence (every row, rendered lines) and the end-to-end probes.")
+              "(S4V.Lemmas.Time). The 173 regexes themselves are inside the model (Gen.Regex: every DTPD! row's pattern re-parsed from datetime.rs into an AST on every run; "
+              "Model.Regex: language semantics `Matches` over strict UTF-8 and an executable leftmost-first matcher `search` with capture groups, proved sound (C04_search_sound)). "
+              "Proved over the whole regenerated table: every match of every row contains a digit; a has_year4 row only matches text containing '1' or '2'; a has_d2 row only matches text "
+              "with two consecutive digits; hence the cheap pre-checks never skip a line the pattern would match (C04_ezcheck_sound) and find_datetime_in_line with the three persisting "
+              "EZCHECK cursors returns what the loop without them returns (C04_ezcheck_transparent; without `range start = 0` it is false: C04_ezcheck_transparent_full_false, latent). "
+              "For the RFC 3339 row the captures are proved end to end: for every field value, `search` on the rendered text captures exactly the fields, which C04_normalise_parse turns "
+              "into the denoted instant (C04_rfc3339_search, C04_rfc3339_end_to_end). Which row a file is read with (PatSelSpec; constants regenerated): try order = count descending then "
+              "index; first line gets the lowest matching row; after analysis exactly the most-used row (lowest index on ties) remains and every line is dated by it alone; for a one-notation "
+              "file the dates are the same before and after analysis; the parse LRU is transparent and cleared at both year changes. NOT theorems: completeness/priority of `search` w.r.t. "
+              "the regex crate for rows other than 71, chrono = parseBuf: these are the correspondences `rgx` (every row: match, span, every group span), `time`, `patsel` and the end-to-end probes.")
 ASSUME = ["chrono 0.4.40 strptime behaves as modelled in parseBuf (differential: `time parse`)",
-          "the regex crate captures what the renderer wrote (differential: `time norm`, all 173 rows)",
+          "the regex crate implements the modelled semantics (leftmost-first, Unicode classes, strict UTF-8): differential `rgx` on every row (match yes/no, overall span, span of every named group) "
+          "over the repo's own test lines, AST samples in junk context, one-byte mutations, ill-formed UTF-8 and random bytes; plus `time norm` (all 173 rows)",
+          "slice_contains_12_D2, ezcheck_slice and find_datetime_in_line are pub(crate): tied by the translated has_year4/has_d2 tables, the three public byte tests (`rgx c`) and the proofs",
           "gen/ref/tz.json is the stated oracle for what a zone abbreviation denotes"]
 
 FMT = '%Y%m%dT%H%M%S%.9f'
@@ -234,7 +244,7 @@ def oracle_all(ctx):
 
 
 def check(ctx):
-    return core.standard_check(ctx, ['TimeTables'], MODS, [('time', 3000, 60000)], oracle_all, LEVEL_NOTE, ASSUME)
+    return core.standard_check(ctx, ['TimeTables', 'Regex', 'PatSel'], MODS, [('time', 3000, 60000), ('rgx', 12000, 150000), ('patsel', 500, 6000)], oracle_all, LEVEL_NOTE, ASSUME)
 
 
 def replay(ctx, data):
